@@ -86,6 +86,14 @@ Pieces == {Build(ks, 1, Plain) : ks \in KindSeqs} \cup {Build(ks, 1, ParentLeaf)
           \cup {Build(ks, 1, EmptyLeaf) : ks \in {q \in KindSeqs : Len(q) <= 3}}
           \cup {Build(ks, 1, lf) : ks \in {q \in KindSeqs : Len(q) <= 1}, lf \in OnePrintLeaves} \cup OnePrintLeaves
 
+(* the target of a capture exists in an outer scope and holds null: the capture, made inside a loop body or a macro's loop, is
+   the value of THAT variable afterwards (null is a value; the variable is defined) *)
+NullTargets == {
+  [stmts |-> <<SetS("zn", NullE), ForS("", "v", ArrE(<<IntE(1), IntE(2)>>), NoE, <<SetCap("zn", <<Text("c"), PrintS(NameE("v"))>>)>>, <<>>, FALSE),
+               Text("~"), PrintS(NameE("zn")), Text("~")>>, defs |-> <<>>, out |-> [vv \in VV |-> S2B("~c2~")], inh |-> FALSE],
+  [stmts |-> <<Text("M"), PrintS(AttrCall(NameE("_self"), "mz", <<>>)), Text("W")>>,
+   defs |-> <<MacroS("mz", <<"p">>, <<ForS("", "i", ArrE(<<IntE(1)>>), NoE, <<SetCap("p", <<Text("k")>>)>>, <<>>, FALSE), Text("("), PrintS(NameE("p")), Text(")")>>)>>,
+   out |-> [vv \in VV |-> S2B("M(k)W")], inh |-> FALSE] }
 Templates(p) ==
   IF p.inh
   THEN ("base" :> p.defs \o <<Text("^"), BlockS("main", <<Text("BASE"), BlockS("pz", <<Text("P"), PrintS(NameE("x"))>>)>>), Text("$"),
@@ -97,7 +105,7 @@ Expected(p) == S2B("^S") \o p.out[<<>>] \o S2B("E$")
 (* a leaf that fails after writing: the execution stops there, and whatever an open capture holds at that point is not output *)
 FailLeaf == [stmts |-> <<Text("f"), PrintS(NameE("v")), PrintS(CallE("nosuchfunction", <<>>)), Text("g")>>, defs |-> <<>>, out |-> [vv \in VV |-> <<>>], inh |-> FALSE]
 FailKs == SetToSeq({q \in KindSeqs : Len(q) <= 3})
-OkCases == SetToSeq(Pieces)
+OkCases == SetToSeq(Pieces \cup NullTargets)
 Cases == OkCases \o [i \in 1..Len(FailKs) |-> Build(FailKs[i], 1, FailLeaf)]
 IsFail == v_idx > Len(OkCases)
 Picked == 1..Len(Cases)
